@@ -25,6 +25,7 @@ type rwOp struct {
 	Op   string `json:"op"` // header | write | copy (io.Copy from a plain reader) | flush | before | read
 	Code int    `json:"code,omitempty"`
 	N    int    `json:"n,omitempty"`
+	Ctl  bool   `json:"through_response_controller,omitempty"` // flush / hijack: asked for through http.NewResponseController(w), as handlers written for Go 1.20+ do; it is the same operation on the same writer
 	Reg  bool   `json:"hook_registers_another,omitempty"` // before: the function, when it runs, registers one more function (which may or may not run; the ones registered earlier must still run exactly once, in reverse order)
 }
 
@@ -177,9 +178,15 @@ func (st *rwStepper) step() bool {
 		}
 		obs.rets = append(obs.rets, [2]int{int(n), e})
 	case "flush":
-		rw.Flush()
+		if op.Ctl {
+			_ = http.NewResponseController(rw).Flush()
+		} else {
+			rw.Flush()
+		}
 	case "hijack":
-		if hj, ok := rw.(http.Hijacker); ok {
+		if op.Ctl {
+			_, _, _ = http.NewResponseController(rw).Hijack()
+		} else if hj, ok := rw.(http.Hijacker); ok {
 			_, _, _ = hj.Hijack()
 		}
 	case "before":
@@ -406,10 +413,11 @@ func genRWCase(rng *rand.Rand) *rwCase {
 				c.Ops = append(c.Ops, rwOp{Op: "write", N: rng.Intn(65)})
 			}
 		case 4:
+			ctl := len(c.Ops)%3 == 0 // (no draw of its own)
 			if rng.Intn(4) == 0 {
-				c.Ops = append(c.Ops, rwOp{Op: "hijack"})
+				c.Ops = append(c.Ops, rwOp{Op: "hijack", Ctl: ctl})
 			} else {
-				c.Ops = append(c.Ops, rwOp{Op: "flush"})
+				c.Ops = append(c.Ops, rwOp{Op: "flush", Ctl: ctl})
 			}
 		case 5, 6:
 			c.Ops = append(c.Ops, rwOp{Op: "before", Reg: rng.Intn(6) == 0})
@@ -639,7 +647,7 @@ func judgeTwo(w *core.W, c *twoCase) {
 }
 
 func runC13(r *core.Run) {
-	r.Rule("random operation sequences (0-12) over WriteHeader(100..999), Write(0..64 bytes), Flush, Before(fn) (registered before and after the first write; one in six functions registers another function while it runs), reads; all nine methods (HEAD over-represented); underlying writer with/without Flusher; fault injection: the k-th underlying Write is short, fails, or both (also with the standard library's own error values, e.g. (0, http.ErrBodyNotAllowed)); four responses whose forwarded body passes 2^31 and 2^32 bytes; 600/20000 cases in which a second goroutine writes / flushes / sends a status while the first one is still inside a before-function; a quarter of the underlying writers offer Flush, FlushError, Hijack and ReadFrom as net/http's do, and Hijack is one of the operations; 1/5 of sequences run inside a handler on Context.ResponseWriter(). Oracle: 20-line state machine predicting every forwarded call, every Status/Size/Written reading and every Write result, plus predicates on the spy log (one status line, first; no body for HEAD; hooks once, reverse order, before the status line, seeing Written()==false). non-trivial = distinct sequences whose first status-sending op is not WriteHeader, or with >=2 hooks before it, or a second WriteHeader, or HEAD with a body write, or a fired fault")
+	r.Rule("random operation sequences (0-12) over WriteHeader(100..999), Write(0..64 bytes), Flush, Before(fn) (registered before and after the first write; one in six functions registers another function while it runs), reads; all nine methods (HEAD over-represented); underlying writer with/without Flusher; fault injection: the k-th underlying Write is short, fails, or both (also with the standard library's own error values, e.g. (0, http.ErrBodyNotAllowed)); four responses whose forwarded body passes 2^31 and 2^32 bytes; 600/20000 cases in which a second goroutine writes / flushes / sends a status while the first one is still inside a before-function; a quarter of the underlying writers offer Flush, FlushError, Hijack and ReadFrom as net/http's do, and Hijack is one of the operations; a third of the flushes and hijacks are asked for through http.NewResponseController; 1/5 of sequences run inside a handler on Context.ResponseWriter(). Oracle: 20-line state machine predicting every forwarded call, every Status/Size/Written reading and every Write result, plus predicates on the spy log (one status line, first; no body for HEAD; hooks once, reverse order, before the status line, seeing Written()==false). non-trivial = distinct sequences whose first status-sending op is not WriteHeader, or with >=2 hooks before it, or a second WriteHeader, or HEAD with a body write, or a fired fault")
 	r.Assume("before-functions only record, read accessors and do not re-enter Write/WriteHeader (that deadlocks on sync.Once by Go's documented semantics)")
 	c13Canaries(r)
 	n := r.N(300000, 20000000)
